@@ -5,6 +5,7 @@
 //! sub-check. A fit is judged by the norm of that gradient at the point linfa returns.
 
 pub mod glm;
+pub mod isolate;
 pub mod logistic;
 pub mod model;
 
@@ -13,6 +14,42 @@ use proptest::prelude::*;
 use serde::{Deserialize, Serialize};
 use vengine::gen::SplitMix;
 use vengine::{prop_sub, Obs, Property, Tier};
+
+fn run_inner(sub: &str, json: &str, obs: &mut Obs) -> Result<(), String> {
+    match sub {
+        "binary" | "multinomial" => {
+            let c: logistic::LogitCase = serde_json::from_str(json).map_err(|e| e.to_string())?;
+            logistic::check(&c, obs);
+        }
+        "glm" => {
+            let c: glm::GlmCase = serde_json::from_str(json).map_err(|e| e.to_string())?;
+            glm::check(&c, obs);
+        }
+        other => return Err(format!("unknown sub-check {other}")),
+    }
+    Ok(())
+}
+
+/// `Some(exit code)` when this process was started as a per-case child (see `isolate`).
+pub fn child_entry() -> Option<i32> {
+    isolate::child_main(&run_inner)
+}
+
+fn binary_isolated(c: &logistic::LogitCase, obs: &mut Obs) {
+    isolate::isolated("binary", c, obs, "")
+}
+fn multinomial_isolated(c: &logistic::LogitCase, obs: &mut Obs) {
+    isolate::isolated("multinomial", c, obs, "")
+}
+fn glm_isolated(c: &glm::GlmCase, obs: &mut Obs) {
+    // a fit that never returns gets its own signature when the mean can leave the deviance's domain
+    // (identity link, power >= 1): there the cost becomes NaN and argmin's line search spins forever
+    let suffix = match glm::derive(c) {
+        Some(d) if d.link == Lk::Identity && d.power >= 1.0 => ":identity-link-nan-deviance",
+        _ => "",
+    };
+    isolate::isolated("glm", c, obs, suffix)
+}
 
 // ------------------------------------------------------------------------------------------------
 // self test of the oracle: analytic gradient vs central differences of the own objective,
@@ -154,9 +191,9 @@ pub fn property() -> Property {
             format!("oracle self-test: analytic gradient/Hessian of the harness objectives agree with central differences within {:e} relative", FD_TOL),
         ],
         subs: vec![
-            prop_sub("multinomial", 700, 14000, |t: Tier| logistic::case_strategy(true, t), logistic::check).chunks(16),
-            prop_sub("binary", 1200, 24000, |t: Tier| logistic::case_strategy(false, t), logistic::check).chunks(16),
-            prop_sub("glm", 2000, 40000, glm::case_strategy, glm::check).chunks(16),
+            prop_sub("multinomial", 700, 14000, |t: Tier| logistic::case_strategy(true, t), multinomial_isolated).chunks(16),
+            prop_sub("binary", 1200, 24000, |t: Tier| logistic::case_strategy(false, t), binary_isolated).chunks(16),
+            prop_sub("glm", 2000, 40000, glm::case_strategy, glm_isolated).chunks(16),
             prop_sub("oracle_selftest", 300, 3000, |_t: Tier| self_strategy(), selftest).chunks(2),
         ],
     }
